@@ -251,6 +251,7 @@ Plan generate(uint64_t seed, const std::string& focus) {
     int max_qos = (bk.base_caps.max_qos && !forbid_ok) ? *bk.base_caps.max_qos : 2;
     bool retain_ok = !(bk.base_caps.retain_avail && *bk.base_caps.retain_avail == 0) || forbid_ok;
     bool run_pending = !run_first;
+    bool force_broker_publish = false;
 
     for (int i = 0; i < nsteps; ++i) {
         double x = (r.next() >> 11) * (1.0 / 9007199254740992.0) * total;
@@ -259,6 +260,8 @@ Plan generate(uint64_t seed, const std::string& focus) {
         Step s; s.kind = kind;
         s.delay = biased_delay(r, focus == "C12" || r.chance(0.3));
         if (run_pending && r.chance(0.3)) { kind = s.kind = SK::Run; run_pending = false; }
+        // "the next bytes from the broker arrive on a timer deadline" is followed at once by a message from the broker
+        if (force_broker_publish) { kind = s.kind = SK::BrokerPublish; s.delay = 0; force_broker_publish = false; }
         switch (kind) {
         case SK::Run: s.c = r.chance(0.3); break;
         case SK::Publish: {
@@ -370,12 +373,14 @@ Plan generate(uint64_t seed, const std::string& focus) {
             if (cc.use_authenticator && r.chance(0.35)) { s.a = 0; s.c = 1; s.d = 1 + (int)r.below(3); }   // the authenticator fails at one of its steps
             break;
         case SK::FSessionPresent: s.a = (int)r.pick<int>({0, 0, 1}); s.b = (int)r.pick<int>({1, 1, 2}); break;
-        case SK::FStall: s.t = r.pick<ns_t>({1 * MS, 100 * MS, 2 * SEC, 6 * SEC, 25 * SEC}); break;
+        case SK::FStall: s.t = r.pick<ns_t>({1 * MS, 100 * MS, 2 * SEC, 6 * SEC, 25 * SEC});
+            if (r.chance(0.35)) { s.b = 1; s.t = r.pick<ns_t>({100 * MS, 600 * MS, 1600 * MS, 3200 * MS, 8 * SEC}); force_broker_publish = r.chance(0.7); if (force_broker_publish && i + 1 >= nsteps) ++nsteps; }
+            break;
         case SK::FClockJump: s.t = r.pick<ns_t>({-3600 * SEC, -30 * SEC, -1 * SEC, 1 * SEC, 19 * SEC, 30 * SEC, 3600 * SEC}); break;
         case SK::FPingSilent: s.a = 1; break;
         case SK::FHostileWindow: s.a = r.chance(0.8); s.b = (int)r.pick<int>({100, 300, 600, 1000}); break;
         case SK::FShutdownDelay: s.t = r.pick<ns_t>({0, 100 * MS, 4900 * MS, 5 * SEC, 5100 * MS, 7 * SEC}); break;
-        case SK::FRaceTimer: s.a = (int)r.below(3); s.b = r.chance(focus == "C12" ? 0.6 : 0.3); break;
+        case SK::FRaceTimer: s.a = (int)r.below(3); s.b = r.chance(focus == "C12" ? 0.6 : 0.3); if (s.b) { force_broker_publish = true; if (i + 1 >= nsteps) ++nsteps; } break;
         default: break;
         }
         push(std::move(s));
